@@ -151,6 +151,9 @@ func BuildPacket(op kernel.Op) (pkt rtmp.Packet, kind string) {
 		if arg(op, 3) != 0 {
 			p.Args = newTgen(arg(op, 4), arg(op, 2)).Object(0)
 		}
+		if arg(op, 5) != 0 {
+			p.CommandName = "_error"
+		}
 		return p, "*rtmp.ConnectAppResPacket"
 	case "createStream":
 		p := rtmp.NewCreateStreamPacket()
@@ -164,6 +167,9 @@ func BuildPacket(op kernel.Op) (pkt rtmp.Packet, kind string) {
 		p.StreamID = amf0.Number(float64(arg(op, 1)) / 2)
 		if arg(op, 2) == 1 {
 			p.CommandObject = newTgen(arg(op, 3), 6).Object(0)
+		}
+		if arg(op, 4) != 0 {
+			p.CommandName = "_error"
 		}
 		return p, "*rtmp.CreateStreamResPacket"
 	case "publish":
